@@ -451,12 +451,19 @@ class Context:
         rdir = os.path.join(OUT, "replays", prop)
         new_viol = []
         known_lines = {}
+        dump = os.environ.get("VERIF_DUMP_KNOWN")     # (debugging aid: the violations that matched a known finding)
+        dumped = []
         for v in self.acc.violations:
             e = self.findings.match(v)
             if e is not None:
                 known_lines[e["id"]] = e
+                if dump:
+                    dumped.append({"id": e["id"], "tags": v.tags, "what": v.what})
             else:
                 new_viol.append(v)
+        if dump:
+            with open(dump, "w") as f:
+                json.dump(dumped, f, indent=1, default=repr)
         # Classes whose representatives were all matched are known; classes with
         # more hits than stored representatives share the tags of the stored ones.
         out_lines = []
